@@ -23,7 +23,7 @@ func init() { Registry["C15"] = C15 }
 var opPairs = [][2]string{{"streq", "a"}, {"streq", "aA"}, {"contains", "a"}, {"contains", "aA"}, {"strmatch", "Aa"},
 	{"beginsWith", "a"}, {"beginsWith", "aA"}, {"endsWith", "a"}, {"endsWith", "Aa"}, {"within", "a b aA"},
 	{"eq", "1"}, {"eq", "-1"}, {"eq", "0"}, {"eq", "x"}, {"ge", "1"}, {"ge", "-1"}, {"gt", "0"}, {"gt", "-1"}, {"le", "1"}, {"le", "-1"}, {"lt", "1"}, {"lt", "0"},
-	{"pm", "ab Aa"}, {"pm", "a"}, {"pm", "bab"}, {"validateUrlEncoding", ""}, {"validateUtf8Encoding", ""}}
+	{"pm", "ab Aa"}, {"pm", "a"}, {"pm", "bab"}, {"pm", "aA  bb"}, {"pm", "a\xffb"}, {"pm", "\xc3\xa9"}, {"validateUrlEncoding", ""}, {"validateUtf8Encoding", ""}}
 var byteRanges = []string{"97-98,0", "65", "0-255", "1-254"}
 var cidrArgs = []string{"10.0.0.0/30", "10.0.0.5", "10.0.0.4/31", "10.0.0.5/30", "10.0.0.128/25", "10.0.0.0/24"}
 
@@ -61,6 +61,12 @@ func C15(run *vf.Run) {
 		Used int         `json:"used"`
 	}
 	var caps []capRow
+	type rxDotRow struct {
+		Arg   eng.Bytes `json:"arg"`
+		In    eng.Bytes `json:"in"`
+		Holds bool      `json:"holds"`
+	}
+	var rxdots []rxDotRow
 	var mu sync.Mutex
 	res, err := vf.RunTLC(vf.TLCOpts{Module: "Operators_MC", CfgText: fmt.Sprintf("SPECIFICATION Spec\nCONSTANTS\n  Alphabet = {97, 65, 98, 32, 37, 49, 45, 195, 169, 255, 50, 239, 191, 189}\n  MaxLen = %d\nINVARIANTS ContainsReflexive EqIsGeAndLe FullRangeNeverViolated WideAgreesWithNarrow WideTrichotomy Emit\n", maxLen),
 		Workers: 8, Timeout: vf.Pick(run, 10*time.Minute, 60*time.Minute),
@@ -81,6 +87,10 @@ func C15(run *vf.Run) {
 			}
 			if c, ok := probe["cap"]; ok {
 				_ = json.Unmarshal(c, &caps)
+				return
+			}
+			if c, ok := probe["rxdot"]; ok {
+				_ = json.Unmarshal(c, &rxdots)
 				return
 			}
 			var r row
@@ -300,6 +310,18 @@ func C15(run *vf.Run) {
 		}
 	}
 	c15RuleLevel(run, report)
+	// @rx: the dot matches the newline whatever else the pattern contains
+	for _, c := range rxdots {
+		op, err := getOp("rx", string(c.Arg))
+		if err != nil {
+			run.Inconclusive("rx dot table: pattern %q rejected: %v", string(c.Arg), err)
+			continue
+		}
+		if got := op.Evaluate(ts, string(c.In)); got != c.Holds {
+			report("rx-dot-newline", "rx", string(c.Arg), c.In, fmt.Sprintf("the operator returned %v, the pattern read with the dot matching every byte gives %v", got, c.Holds))
+		}
+		run.Eval("rxdot-" + string(c.Arg) + string(c.In))
+	}
 	// the capture table of the specification: n groups / n phrases found, TX.0-9 as CaptureTX says
 	for _, c := range caps {
 		var sb strings.Builder
